@@ -83,6 +83,13 @@ def run(ctx):
                 check(w, "readall")
                 for i in range(n):
                     lines.append(f"nread {i}"); expect.append("ok " + enc(w.signals[i].name))
+            elif op == "write" and rng.random() < 0.3:
+                # a name as typed: padded, or containing the separator — afterwards every name must still be the trimmed
+                # entry of the property (the raw assigned text is not what the property holds)
+                i = rng.randrange(n)
+                v = rng.choice([" pad", "pad ", "\tq\t", "a,b", "x, y", " ", ","]) if rng.random() < 0.8 else rname()
+                w.signals[i].name = v
+                lines.append(f"nwrite {i} {enc(v)}"); expect.append("ok")
             elif op == "write":
                 i = rng.randrange(n)
                 v = rname(clean=True)
